@@ -313,6 +313,9 @@ class H2Protocol:
                 if event.stream_id in self.stream_buffers:
                     await self.stream_buffers[event.stream_id].close()
                 await self._window_updated(event.stream_id)
+                # With this stream gone the connection may have
+                # become idle (as when a stream closes normally)
+                await self.send(Updated(idle=self.idle))
             elif isinstance(event, h2.events.WindowUpdated):
                 await self._window_updated(event.stream_id)
             elif isinstance(event, h2.events.PriorityUpdated):
